@@ -246,6 +246,7 @@ func (d *Data) processEvents() {
 			}
 		case msg := <-d.syncCh:
 			ctx := datastore.NewVersionedCtx(d, msg.Version)
+			dvid.VerifPoint("annotation.sync.start", uint64(msg.Version))
 			d.handleSyncMessage(ctx, msg, batcher)
 
 			if stop && len(d.syncCh) == 0 {
@@ -348,6 +349,7 @@ func (d *Data) handleSyncMessage(ctx *datastore.VersionedCtx, msg datastore.Sync
 		diagnostic = fmt.Sprintf("critical error - unexpected delta: %v\n", msg)
 		successful = false
 	}
+	dvid.VerifPoint("annotation.sync.done", mutID)
 
 	if server.KafkaAvailable() {
 		t := time.Since(t0)
@@ -552,6 +554,7 @@ func (d *Data) mutateBlock(ctx *datastore.VersionedCtx, mutID uint64, chunkPt dv
 		}
 		batch.Put(tk, val)
 	}
+	dvid.VerifPoint("annotation.sync.mutateBlock", mutID)
 	if err := batch.Commit(); err != nil {
 		dvid.Criticalf("bad commit in annotations %q after delete block: %v\n", d.DataName(), err)
 		return
@@ -615,6 +618,7 @@ func (d *Data) mergeLabels(batcher storage.KeyValueBatcher, v dvid.VersionID, op
 			delta.Del = append(delta.Del, ElementPos{Label: label, Kind: elem.Kind, Pos: elem.Pos})
 		}
 	}
+	dvid.VerifPoint("annotation.sync.mergeLabels", op.Target)
 	if elemsAdded > 0 {
 		val, err := json.Marshal(targetElems)
 		if err != nil {
@@ -709,6 +713,7 @@ func (d *Data) cleaveLabels(batcher storage.KeyValueBatcher, v dvid.VersionID, o
 	}
 
 	// Write the new label-indexed denormalizations
+	dvid.VerifPoint("annotation.sync.cleaveLabels", op.Target)
 	batch := batcher.NewBatch(ctx)
 	for label, elems := range labelElems {
 		labelTKey := NewLabelTKey(label)
